@@ -180,39 +180,43 @@ Fixpoint print_fields (l : list (N * N * N)) (idx : nat) (strings : list str) (l
   end.
 
 (* the line as flag items; the text joins their canonical rendering ("-x value") with blanks *)
+(* the -w form, for a rule that has exactly the shape a file watch is built into *)
+Definition watch_items (fl act : N) (m : list N) (fields : list (N * N * N)) (strings : list str) : option (list fitem) :=
+  match last_index 106 fields 0 None with
+  | Some pidx =>
+      if all_syscalls m && is_watch fl act {| r_fields := fields; r_strings := strings |} then
+        let path := nth 0 strings [] in
+        let key := match fields with [_; _; _] => nth 1 strings [] | _ => [] end in
+        let pv := match nth_error fields pidx with Some (_, _, v) => v | None => 0 end in
+        Some ([FFlag "w" path; FFlag "p" (perm_string pv)] ++ match key with [] => [] | _ => [FFlag "k" key] end)
+      else None
+  | None => None
+  end.
+
+(* the -a form: "-a action,list", the syscalls after the last arch filter (or first when there is none), the fields in order *)
+Definition syscall_items (ln an : string) (fl : N) (m : list N) (fields : list (N * N * N)) (strings : list str) : option (list fitem) :=
+  let last_arch := last_index 11 fields 0 None in
+  match (match last_arch with
+         | Some la => match nth_error fields la with Some (_, _, v) => display_arch v | None => None end
+         | None => Some [] end) with
+  | None => None
+  | Some rarch =>
+      match syscall_args fl m rarch with
+      | None => None
+      | Some sargs =>
+          match print_fields fields 0 strings last_arch sargs with
+          | None => None
+          | Some fs => Some (FFlag "a" (s2l an ++ ","%char :: s2l ln) :: (match last_arch with None => sargs | Some _ => [] end) ++ fs)
+          end
+      end
+  end.
+
 Definition cmd_items (fl act : N) (m : list N) (fields : list (N * N * N)) (strings : list str) : option (list fitem) :=
   match list_name fl, action_name act with
   | Some ln, Some an =>
-      let r := {| r_fields := fields; r_strings := strings |} in
-      let watch :=
-        match last_index 106 fields 0 None with
-        | Some pidx =>
-            if all_syscalls m && is_watch fl act r then
-              let path := nth 0 strings [] in
-              let key := match fields with [_; _; _] => nth 1 strings [] | _ => [] end in
-              let pv := match nth_error fields pidx with Some (_, _, v) => v | None => 0 end in
-              Some ([FFlag "w" path; FFlag "p" (perm_string pv)] ++ match key with [] => [] | _ => [FFlag "k" key] end)
-            else None
-        | None => None
-        end in
-      match watch with
+      match watch_items fl act m fields strings with
       | Some t => Some t
-      | None =>
-          let last_arch := last_index 11 fields 0 None in
-          match (match last_arch with
-                 | Some la => match nth_error fields la with Some (_, _, v) => display_arch v | None => None end
-                 | None => Some [] end) with
-          | None => None
-          | Some rarch =>
-              match syscall_args fl m rarch with
-              | None => None
-              | Some sargs =>
-                  match print_fields fields 0 strings last_arch sargs with
-                  | None => None
-                  | Some fs => Some (FFlag "a" (s2l an ++ ","%char :: s2l ln) :: (match last_arch with None => sargs | Some _ => [] end) ++ fs)
-                  end
-              end
-          end
+      | None => syscall_items ln an fl m fields strings
       end
   | _, _ => None
   end.
